@@ -6,6 +6,6 @@ P=$(realpath $1); C=$2; T=${3:-quick}; S=${4:-0}
 W=/tmp/mrepo_$$
 git -C /repo worktree add -q $W HEAD || exit 3
 git -C $W apply "$P" || { echo "patch does not apply"; git -C /repo worktree remove --force $W; exit 3; }
-VERIF_REPO=$W VERIF_SEED=$S timeout 1800 ./check $C --tier $T > /tmp/mutant_run_$C.log 2>&1; rc=$?
+mkdir -p /tmp/mutant_ev_$C; VERIF_EVIDENCE_DIR=/tmp/mutant_ev_$C VERIF_REPLAY_DIR=/tmp/mutant_ev_$C VERIF_REPO=$W VERIF_SEED=$S timeout 1800 ./check $C --tier $T > /tmp/mutant_run_$C.log 2>&1; rc=$?
 git -C /repo worktree remove --force $W; git -C /repo worktree prune
 echo "exit=$rc violations=$(grep -c '^VIOLATION' /tmp/mutant_run_$C.log)"; grep "^VIOLATION\|^#" /tmp/mutant_run_$C.log | head -4 | cut -c1-260
